@@ -76,57 +76,9 @@ Definition run_pcase2 (pc : pcase) : option pout2 :=
   end.
 
 (* ---------------------------------------------------------------- decoding a pin-level log back to L1 *)
-(* the byte / word stream with the DC level: SPI writes, or bus samples at WR rising edges *)
-Inductive witem := WByte (dc : bool) (v : Z) | WDelay (ns : Z) | WRst (high : bool).
-
-Fixpoint wire_spi (dc : bool) (ops : list l2op) : list witem :=
-  match ops with
-  | [] => []
-  | ODc b :: r => wire_spi b r
-  | OSpi bs :: r => map (WByte dc) bs ++ wire_spi dc r
-  | ODelay ns :: r => WDelay ns :: wire_spi dc r
-  | ORst b :: r => WRst b :: wire_spi dc r
-  | _ :: r => wire_spi dc r
-  end.
-Fixpoint wire_par (st : lines) (ops : list l2op) : list witem :=
-  match ops with
-  | [] => []
-  | o :: r =>
-      (match o with
-       | OWr true => if l_wr st then [] else [WByte (l_dc st) (data_value (l_pins st))]
-       | ODelay ns => [WDelay ns]
-       | ORst b => [WRst b]
-       | _ => []
-       end) ++ wire_par (line_step st o) r
-  end.
-
-Fixpoint chunks (n : nat) (fuel : nat) (l : list Z) : list (list Z) :=
-  match fuel with
-  | O => []
-  | S f => match l with [] => [] | _ => firstn n l :: chunks n f (skipn n l) end
-  end.
-
-(* a command byte (DC low) opens a command; DC-high items are its parameters — or, after 0x2C, pixel
-   words grouped n per pixel *)
-Definition flush (n : nat) (cur : option (Z * list Z)) : list event :=
-  match cur with
-  | None => []
-  | Some (op, rargs) =>
-      let args := rev rargs in
-      if op =? 0x2C then [ECmd op []; EPixels (chunks n (S (length args)) args)] else [ECmd op args]
-  end.
-Fixpoint decode_items (n : nat) (cur : option (Z * list Z)) (orphan : list Z) (l : list witem) : list event :=
-  match l with
-  | [] => flush n cur ++ (match orphan with [] => [] | _ => [EPixels (chunks n (S (length orphan)) (rev orphan))] end)
-  | WByte false v :: r => flush n cur ++ decode_items n (Some (v, [])) [] r
-  | WByte true v :: r =>
-      match cur with
-      | Some (op, ra) => decode_items n (Some (op, v :: ra)) orphan r
-      | None => decode_items n None (v :: orphan) r
-      end
-  | WDelay ns :: r => flush n cur ++ EDelay ns :: decode_items n None orphan r
-  | WRst b :: r => flush n cur ++ (if b then ERstHigh else ERstLow) :: decode_items n None orphan r
-  end.
+(* witem, wire_spi, wire_par, chunks, flush, decode_items: Oracle/Decode.v (proved to invert the transports:
+   Proofs/DecodeP.v, Props/C01T.v) *)
+Require Import Oracle.Decode.
 
 Definition words_per_pixel (pc : pcase) (m : model_def) : nat :=
   if pc_iface pc =? 5 then 1%nat else match m_color m with CRgb565 => 2%nat | CRgb666 => 3%nat end.
